@@ -5,6 +5,12 @@
 
 namespace mon
 {
+   // defined in mon/tu.hpp once the generated kind tables are known; grammars may name them earlier
+   template< typename Rule > struct actA;
+   template< typename Rule > struct actB;
+   template< typename Rule > struct ctlA;
+   template< typename Rule > struct ctlB;
+
    struct runreq
    {
       const char* b;
@@ -27,6 +33,7 @@ namespace mon
       const char* alphabet;   // NUL-free list given with explicit length
       std::size_t nalpha;
       const signed char* akinds;   // per registry id, for the variant compiled in (may be null)
+      const signed char* akinds_b; // the same for action family B (never contains change_action kinds)
       const signed char* sels;     // parse-tree selector per registry id: 0 not selected, 1 store, 2 remove_content, 3 fold_one, 4 discard_empty
       unsigned salt;
       unsigned features;      // F_* below
